@@ -1536,9 +1536,9 @@ func main() {
 		},
 		Cases: func(tier string) int {
 			if tier == "thorough" {
-				return 6400
+				return 4000
 			}
-			return 320
+			return 240
 		},
 		Run:         run,
 		CaseTimeout: 15 * time.Minute,
